@@ -101,13 +101,12 @@ func (sw *StreamReader) ReadEnvelopeBegin() (stream.EnvelopeHeader, error) {
 func (sw *StreamReader) readNonStrictEnvelope(length int32) (stream.EnvelopeHeader, error) {
 	var eh stream.EnvelopeHeader
 
-	buf := make([]byte, length)
-	for i := int32(0); i < length; i++ {
-		i8, err := sw.ReadInt8()
-		if err != nil {
-			return eh, err
-		}
-		buf[i] = byte(i8)
+	// length is the positive name length announced by the message. Read it
+	// the way binary values are read so that a huge announced length cannot
+	// force a huge allocation before any of the name has been seen.
+	buf, err := sw.readBytes(length)
+	if err != nil {
+		return eh, err
 	}
 
 	typ, err := sw.ReadInt8()
